@@ -261,6 +261,9 @@ type framer struct {
 	rng  *vh.Rng
 	wbuf bytes.Buffer
 	w    *v030.V030ReadWriter // one long-lived writer: its header buffer is reused from message to message
+	// set once the real code was seen to allocate/read beyond the limit: later streams declaring more than 1 MiB are
+	// skipped (a tree without the bound would otherwise spend the whole run zeroing gigabytes)
+	degraded bool
 }
 
 func newFramer(run *vh.Run) *framer {
@@ -313,6 +316,10 @@ func (f *framer) write(max uint32, m *rawMsg) []byte {
 // configurations must give the same canonical result.
 func (f *framer) read(max uint32, stream []byte, kind string, variants bool) readResult {
 	setMax(max)
+	if f.degraded && len(stream) >= hdrLen && binary.BigEndian.Uint32(stream[4:8]) > 1<<20 {
+		f.run.Count("read-skipped-large-after-bound-failure")
+		return readResult{}
+	}
 	op := fmt.Sprintf("read %d %s", max, hx(stream))
 	r := readOnce(stream, 0, f.rng, true)
 	replay := map[string]interface{}{"op": op, "kind": kind, "impl": r.line}
@@ -327,21 +334,30 @@ func (f *framer) read(max uint32, stream []byte, kind string, variants bool) rea
 	if len(stream) >= hdrLen {
 		declared = int64(binary.BigEndian.Uint32(stream[4:8]))
 	}
+	reported := false
+	fail := func(what string) { // one report per stream: the first clause of the property it breaks
+		if !reported {
+			reported = true
+			f.run.Fail(what, replay)
+		}
+	}
 	if r.panicked {
-		f.run.Fail("ReadMsg panicked", replay)
+		fail("ReadMsg panicked")
 		return r
 	}
 	if r.line == "nil-nil" {
-		f.run.Fail("ReadMsg returned neither a message nor an error", replay)
+		fail("ReadMsg returned neither a message nor an error")
 	}
 	// never more than the configured maximum: the returned payload, the buffer the reader was asked to fill,
 	// and the bytes allocated during the call
 	if r.ok && (len(r.msg.Payload()) > int(max) || cap(r.msg.Payload()) > int(max)) {
-		f.run.Fail("ReadMsg returned a payload larger than the configured maximum", replay)
+		f.degraded = true
+		fail("ReadMsg returned a payload larger than the configured maximum")
 	}
 	if r.maxReq > int(max) && r.maxReq > 16 {
 		replay["requested"] = r.maxReq
-		f.run.Fail("ReadMsg asked the stream to fill a buffer larger than the configured maximum", replay)
+		f.degraded = true
+		fail("ReadMsg asked the stream to fill a buffer larger than the configured maximum")
 	}
 	const slack = 4096
 	if r.memDelta > uint64(max)+slack {
@@ -354,31 +370,34 @@ func (f *framer) read(max uint32, stream []byte, kind string, variants bool) rea
 		}
 		if d > uint64(max)+slack {
 			replay["allocated_bytes"] = d
-			f.run.Fail("ReadMsg allocated more than the configured maximum payload", replay)
+			f.degraded = true
+			fail("ReadMsg allocated more than the configured maximum payload")
 		}
 	}
 	// oversized: error, before allocating or reading the payload
 	if declared > int64(max) {
 		if r.ok {
-			f.run.Fail("ReadMsg accepted a frame whose declared length exceeds the maximum", replay)
+			f.degraded = true
+			fail("ReadMsg accepted a frame whose declared length exceeds the maximum")
 		}
 		if r.maxReq > 0 {
-			f.run.Fail("ReadMsg started reading the payload of an oversized frame", replay)
+			f.degraded = true
+			fail("ReadMsg started reading the payload of an oversized frame")
 		}
 	}
 	// truncated: clean error
 	if declared >= 0 && declared <= int64(max) && int64(len(stream)) < hdrLen+declared && r.ok {
-		f.run.Fail("ReadMsg returned a message from a truncated frame", replay)
+		fail("ReadMsg returned a message from a truncated frame")
 	}
 	if len(stream) < hdrLen && r.ok {
-		f.run.Fail("ReadMsg returned a message from a truncated header", replay)
+		fail("ReadMsg returned a message from a truncated header")
 	}
 	// a complete frame within the limit is delivered with exactly its bytes
 	if declared >= 0 && declared <= int64(max) && int64(len(stream)) >= hdrLen+declared {
 		if !r.ok {
-			f.run.Fail("ReadMsg rejected a complete frame within the limit", replay)
+			fail("ReadMsg rejected a complete frame within the limit")
 		} else if !bytes.Equal(r.msg.Payload(), stream[hdrLen:hdrLen+int(declared)]) {
-			f.run.Fail("ReadMsg returned a payload that differs from the bytes on the wire", replay)
+			fail("ReadMsg returned a payload that differs from the bytes on the wire")
 		}
 	}
 	if variants {
@@ -393,7 +412,7 @@ func (f *framer) read(max uint32, stream []byte, kind string, variants bool) rea
 			if a != b {
 				replay["mode"] = mode
 				replay["variant"] = rv.line
-				f.run.Fail("ReadMsg result depends on how the transport chunks the same bytes", replay)
+				fail("ReadMsg result depends on how the transport chunks the same bytes")
 			}
 		}
 	}
@@ -926,7 +945,9 @@ func handshake(run *vh.Run) {
 				f    func(c *hsCase)
 			}
 			muts := []mut{
-				{"chain.version", func(c *hsCase) { binary.LittleEndian.PutUint32(c.st.ChainID[0:4], uint32(int32(binary.LittleEndian.Uint32(c.st.ChainID[0:4]))+int32(1+rng.Intn(3))*(1-2*int32(rng.Intn(2))))) }},
+				{"chain.version", func(c *hsCase) {
+					binary.LittleEndian.PutUint32(c.st.ChainID[0:4], uint32(int32(binary.LittleEndian.Uint32(c.st.ChainID[0:4]))+int32(1+rng.Intn(3))*(1-2*int32(rng.Intn(2)))))
+				}},
 				{"chain.public", func(c *hsCase) { c.st.ChainID[4] ^= 1 }},
 				{"chain.mainnet", func(c *hsCase) { c.st.ChainID[5] ^= 1 }},
 				{"chain.boolbyte", func(c *hsCase) { // a non-canonical "true": still the same chain id for ChainID.Read
@@ -1097,8 +1118,12 @@ func handshake(run *vh.Run) {
 
 type reporter struct{}
 
-func (reporter) Errorf(format string, args ...interface{}) { panic(fmt.Sprintf("gomock: "+format, args...)) }
-func (reporter) Fatalf(format string, args ...interface{}) { panic(fmt.Sprintf("gomock: "+format, args...)) }
+func (reporter) Errorf(format string, args ...interface{}) {
+	panic(fmt.Sprintf("gomock: "+format, args...))
+}
+func (reporter) Fatalf(format string, args ...interface{}) {
+	panic(fmt.Sprintf("gomock: "+format, args...))
+}
 
 func randomBlock(rng *vh.Rng, txBytes int) *types.Block {
 	b := &types.Block{Header: &types.BlockHeader{ChainID: rng.Bytes(1 + rng.Intn(12)), PrevBlockHash: rng.Bytes(32), BlockNo: uint64(rng.Intn(1 << 30)),
